@@ -80,6 +80,10 @@ func wellKnownURL(prefix string) string {
 
 // buildWWWAuthenticate builds a WWW-Authenticate header value per RFC 9728.
 func buildWWWAuthenticate(metadataURL string, m *OAuthResourceMetadata) string {
+	// net/url keeps a raw double quote in the query verbatim; inside the quoted
+	// parameter it would end the value early (and let the rest of the URL pose
+	// as further parameters), so it is sent percent-encoded.
+	metadataURL = strings.ReplaceAll(metadataURL, `"`, "%22")
 	s := fmt.Sprintf(`Bearer resource_metadata="%s"`, metadataURL)
 	if m.ClientID != "" {
 		s += fmt.Sprintf(`, client_id="%s"`, m.ClientID)
